@@ -12,13 +12,13 @@ def run_store_isolation(res):
     correspondence on -iso cases (views of every queue after every operation), the isolation judge, the F21 witness."""
     quick = res.tier == "quick"
     seed = res.seed
-    plan = [("rec", dict(seed=seed + 10, n=70 if quick else 800, len=10 if quick else 16, safe=False, iso=True)),
-            ("rec", dict(seed=seed + 11, n=70 if quick else 800, len=10 if quick else 16, safe=True, iso=True)),
-            ("badger", dict(seed=seed + 12, n=5 if quick else 60, len=8, safe=True, iso=True)),
+    plan = [("rec", dict(seed=seed + 10, n=90 if quick else 800, len=10 if quick else 16, safe=False, iso=True)),
+            ("rec", dict(seed=seed + 11, n=120 if quick else 800, len=10 if quick else 16, safe=True, iso=True)),
+            ("badger", dict(seed=seed + 12, n=14 if quick else 80, len=8, safe=True, iso=True)),
             ("bunt", dict(seed=seed + 13, n=10 if quick else 100, len=8, safe=True, iso=True))]
     res.cov["trusted_base"] = (res.cov.get("trusted_base") or vlib.TRUSTED_BASE_COMMON) + [
         "store half of C17: the engine as an ordered byte-keyed map; isolation is stated about the entries under a queue's scan prefix (engine and the three pending maps)"]
-    sl.run_msg_pipeline(res, res.prop, "Props/C17_store.v", CHECKER, {"phantom"}, plan, iso=True,
+    sl.run_msg_pipeline(res, res.prop, "Props/C17_store.v", CHECKER, {"phantom", "durable", "length", "from"}, plan, iso=True,
                         corpus_dir=os.path.join(vlib.VERIF, "corpus", "C17"), tag="C17_store")
 
 
